@@ -39,6 +39,12 @@ type Case struct {
 	Reverse   bool  `json:"reverse,omitempty"`
 	HoldComp  bool  `json:"hold_comp,omitempty"`
 	Reconnect []int `json:"reconnect,omitempty"`
+	// idle plan: the broker's token timeout is shortened to TokenTimeoutMs and
+	// the publisher pauses IdleMs (> timeout) before message IdleBefore; the
+	// subscriber acknowledges at once, so no wait for a slot ever lasts long.
+	TokenTimeoutMs int `json:"token_timeout_ms,omitempty"`
+	IdleBefore     int `json:"idle_before,omitempty"`
+	IdleMs         int `json:"idle_ms,omitempty"`
 }
 
 type verdict struct{ sig, msg string }
@@ -259,6 +265,9 @@ func runCase(c *Case) (*verdict, *sub) {
 	b := bk.New(func(m *broker.MemoryBackend, e *broker.Engine) {
 		m.ClientInflightMessages = c.Window
 		m.SessionQueueSize = 100
+		if c.TokenTimeoutMs > 0 {
+			m.ClientTokenTimeout = time.Duration(c.TokenTimeoutMs) * time.Millisecond * ev.Slow()
+		}
 	})
 	defer b.Shutdown()
 	s := &sub{c: c, b: b, got: map[string]int{}, done: map[string]bool{}, seenQ: map[string]bool{}, recSet: map[packet.ID]string{}}
@@ -278,6 +287,9 @@ func runCase(c *Case) (*verdict, *sub) {
 	}
 	publishAll := func() error {
 		for i, q := range c.QoS {
+			if c.IdleMs > 0 && i == c.IdleBefore {
+				time.Sleep(time.Duration(c.IdleMs) * time.Millisecond * ev.Slow())
+			}
 			if err := pub.Publish("c16/m", []byte(fmt.Sprintf("m%03d-q%d", i, q)), packet.QOS(q), false); err != nil {
 				return err
 			}
@@ -374,7 +386,7 @@ func (s *sub) count0() int {
 
 func genCase(rt *rapid.T) *Case {
 	c := &Case{Window: rapid.SampledFrom([]int{1, 1, 2, 2, 3, 4, 5, 7, 10}).Draw(rt, "window")}
-	kind := rapid.SampledFrom([]string{"immediate", "batch", "batch-full", "batch-full", "delay", "reconnect", "reconnect", "qos0-burst"}).Draw(rt, "plan")
+	kind := rapid.SampledFrom([]string{"immediate", "batch", "batch-full", "batch-full", "delay", "reconnect", "reconnect", "qos0-burst", "immediate", "batch", "batch-full", "delay", "reconnect", "qos0-burst", "idle"}).Draw(rt, "plan")
 	maxN := 20 * c.Window
 	mix := rapid.SampledFrom([][]int{{1}, {2}, {1, 2}, {0, 1, 2}, {0, 0, 1, 2, 2}}).Draw(rt, "mix")
 	n := rapid.IntRange(1, maxN).Draw(rt, "n")
@@ -399,6 +411,14 @@ func genCase(rt *rapid.T) *Case {
 			at += rapid.IntRange(1, 2*c.Window+1).Draw(rt, "after")
 			c.Reconnect = append(c.Reconnect, at)
 		}
+	case "idle":
+		// a connection that was idle for longer than the token timeout and then fills its window
+		c.Window = rapid.SampledFrom([]int{1, 2}).Draw(rt, "w")
+		c.TokenTimeoutMs = 400
+		c.IdleMs = 600
+		n = rapid.IntRange(2, 8).Draw(rt, "n")
+		c.IdleBefore = rapid.IntRange(1, n-1).Draw(rt, "idle_before")
+		mix = [][]int{{1}, {2}, {1, 2}}[rapid.IntRange(0, 2).Draw(rt, "m")]
 	case "qos0-burst":
 		// many QoS 0 deliveries, then a full window of unacknowledged QoS 1/2 ones
 		n0 := rapid.IntRange(c.Window, 50*c.Window).Draw(rt, "n0")
@@ -425,6 +445,8 @@ func genCase(rt *rapid.T) *Case {
 
 func classify(c *Case) string {
 	switch {
+	case c.IdleMs > 0:
+		return "idle-then-full-window"
 	case len(c.Reconnect) > 0:
 		return "reconnect"
 	case c.Delay > 0:
@@ -439,8 +461,8 @@ func classify(c *Case) string {
 
 func TestC16(t *testing.T) {
 	run := ev.Start("C16", "exploration")
-	run.Rule("acknowledgement plans: window w in {1,2,3,4,5,7,10}, n <= 20*w numbered messages of mixed QoS published by a second peer (concurrently, or up front for reconnect plans), subscriber acknowledges per plan {immediately, in batches of b <= w, batch = full window, sliding delay d < w, reversed within a batch, PUBCOMP withheld until the next release, drop + unclean reconnect after j deliveries with unacknowledged ones pending (1-3 times), QoS 0 burst followed by a full unacknowledged window}; only valid acknowledgements (each received id once). Oracle at the subscriber at EVERY arrival, retransmissions included: received-and-not-yet-acknowledged QoS 1/2 deliveries <= w (a lower bound of the broker's own count); progress: with everything eventually acknowledged all n arrive, the connection stays alive, a full window of w is reached again after each resume (batch = window plans stall otherwise). non-trivial = n >= 3*w or a reconnect with unacknowledged deliveries; distinct by plan")
-	run.Assume("a delivery stall is judged by a 10 s ceiling without any arrival (typical latency < 1 ms); the broker's own token timeout is set to 30 s so that it cannot mask a stall")
+	run.Rule("acknowledgement plans: window w in {1,2,3,4,5,7,10}, n <= 20*w numbered messages of mixed QoS published by a second peer (concurrently, or up front for reconnect plans), subscriber acknowledges per plan {immediately, in batches of b <= w, batch = full window, sliding delay d < w, reversed within a batch, PUBCOMP withheld until the next release, drop + unclean reconnect after j deliveries with unacknowledged ones pending (1-3 times), connection idle for longer than a shortened token timeout (400 ms) before the window fills again, QoS 0 burst followed by a full unacknowledged window}; only valid acknowledgements (each received id once). Oracle at the subscriber at EVERY arrival, retransmissions included: received-and-not-yet-acknowledged QoS 1/2 deliveries <= w (a lower bound of the broker's own count); progress: with everything eventually acknowledged all n arrive, the connection stays alive, a full window of w is reached again after each resume (batch = window plans stall otherwise). non-trivial = n >= 3*w or a reconnect with unacknowledged deliveries; distinct by plan")
+	run.Assume("idle plans: the subscriber acknowledges within microseconds, far below the 400 ms token timeout configured there", "a delivery stall is judged by a 10 s ceiling without any arrival (typical latency < 1 ms); the broker's own token timeout is set to 30 s so that it cannot mask a stall")
 	defer run.Finish(t)
 
 	exec := func(c *Case) *verdict {
@@ -452,7 +474,7 @@ func TestC16(t *testing.T) {
 		if s.full > 0 {
 			run.Class("window-observed-full")
 		}
-		if s.totalQ >= 3*c.Window || s.resumedWithPending > 0 {
+		if s.totalQ >= 3*c.Window || s.resumedWithPending > 0 || c.IdleMs > 0 {
 			run.NonTrivialJSON(c)
 		}
 		if s.resumedWithPending > 0 {
@@ -465,6 +487,7 @@ func TestC16(t *testing.T) {
 		{Window: 2, QoS: []int{2, 1, 2, 1, 2, 2, 1}, Batch: 2, HoldComp: true, Reconnect: []int{2, 4}},
 		{Window: 3, QoS: []int{0, 0, 0, 0, 0, 0, 0, 0, 0, 1, 1, 1, 2}, Batch: 3},
 		{Window: 4, QoS: []int{1, 1, 2, 2, 1, 1, 2, 2, 1, 1, 2, 2, 1, 1}, Batch: 9, Reconnect: []int{3}},
+		{Window: 1, QoS: []int{1, 1, 2, 1}, Batch: 1, TokenTimeoutMs: 400, IdleBefore: 1, IdleMs: 600},
 		{Window: 10, QoS: []int{1, 2, 1, 2, 1, 2, 1, 2, 1, 2, 1, 2, 1, 2, 1, 2, 1, 2, 1, 2, 1, 2, 1, 2, 1, 2, 1, 2, 1, 2, 1, 2}, Batch: 10, Reverse: true, HoldComp: true},
 	}
 	if shard, _ := ev.Shard(); shard == 0 {
